@@ -59,3 +59,19 @@ package framework_helper
 //@ assert after call append #4: [cat-P] len(ordered) == len(priorityOrderedComponents) && forall(r, int, implies(0 <= r && r < 0 + len(priorityOrderedComponents), ordered[r] == priorityOrderedComponents[r - (0)] && tag(ordered, r) == tag(priorityOrderedComponents, r - (0))), tag(ordered, r), ordered[r])
 //@ assert after call append #5: [cat-PO] len(ordered) == len(priorityOrderedComponents) + len(orderedComponents) && forall(r, int, implies(0 <= r && r < 0 + len(priorityOrderedComponents), ordered[r] == priorityOrderedComponents[r - (0)] && tag(ordered, r) == tag(priorityOrderedComponents, r - (0))), tag(ordered, r), ordered[r]) && forall(r, int, implies(len(priorityOrderedComponents) <= r && r < len(priorityOrderedComponents) + len(orderedComponents), ordered[r] == orderedComponents[r - (len(priorityOrderedComponents))] && tag(ordered, r) == tag(orderedComponents, r - (len(priorityOrderedComponents)))), tag(ordered, r), ordered[r])
 //@ assert after call append #6: [cat-PON] len(ordered) == len(priorityOrderedComponents) + len(orderedComponents) + len(noneOrderedComponents) && forall(r, int, implies(0 <= r && r < 0 + len(priorityOrderedComponents), ordered[r] == priorityOrderedComponents[r - (0)] && tag(ordered, r) == tag(priorityOrderedComponents, r - (0))), tag(ordered, r), ordered[r]) && forall(r, int, implies(len(priorityOrderedComponents) <= r && r < len(priorityOrderedComponents) + len(orderedComponents), ordered[r] == orderedComponents[r - (len(priorityOrderedComponents))] && tag(ordered, r) == tag(orderedComponents, r - (len(priorityOrderedComponents)))), tag(ordered, r), ordered[r]) && forall(r, int, implies(len(priorityOrderedComponents) + len(orderedComponents) <= r && r < len(priorityOrderedComponents) + len(orderedComponents) + len(noneOrderedComponents), ordered[r] == noneOrderedComponents[r - (len(priorityOrderedComponents) + len(orderedComponents))] && tag(ordered, r) == tag(noneOrderedComponents, r - (len(priorityOrderedComponents) + len(orderedComponents)))), tag(ordered, r), ordered[r])
+
+// ---- component names (C07): the custom name if the component declares a non-empty one, else the type id -------------
+//@ spec func AliasOf(c any) string = ite(implements(c, definition.NamingComponent), asType(c, definition.NamingComponent).Naming(), "")
+//@ spec func NameOf(c any) string = ite(AliasOf(c) != "", AliasOf(c), IdOf(c))
+
+//@ func GetComponentNameWithAlias
+//@ property C07
+//@ requires [plain-component] !typeIs(t, reflect.Value) && !implements(t, reflect.Type)
+//@ assigns nothing
+//@ ensures [name-and-alias] name == IdOf(t) && alias == AliasOf(t)
+
+//@ func GetComponentName
+//@ property C07
+//@ requires [plain-component] !typeIs(t, reflect.Value) && !implements(t, reflect.Type)
+//@ assigns nothing
+//@ ensures [name-of-component] result == NameOf(t)
